@@ -265,26 +265,9 @@ func (t *Table) storeEffect(f *ssa.Function, call ssa.CallInstruction, kind stri
 		}
 		break
 	}
-	var kv ssa.Value
 	prefix := ""
 	havePrefix := false
-	if c, ok := v.(*ssa.Call); ok {
-		name, _ := term.CalleeName(t.P, &c.Call)
-		if name == "cosmos/store/prefix.NewStore" && len(c.Call.Args) == 2 {
-			kv = c.Call.Args[0]
-			if s, ok := t.bytesConst(c.Call.Args[1]); ok {
-				prefix, havePrefix = s, true
-			}
-		} else if name == "sdk.Context.KVStore" {
-			kv = c
-			havePrefix = true
-		}
-	}
-	if kv != nil {
-		if c, ok := kv.(*ssa.Call); ok && len(c.Call.Args) == 2 {
-			e.Module, e.KeyField = t.keyOwner(f, c.Call.Args[1])
-		}
-	}
+	e.Module, e.KeyField, prefix, havePrefix = t.resolveStore(f, v, 0)
 	if havePrefix {
 		e.Prefix = prefix
 		if prefix == "" && key != nil {
@@ -299,6 +282,62 @@ func (t *Table) storeEffect(f *ssa.Function, call ssa.CallInstruction, kind stri
 		t.Unres = append(t.Unres, fmt.Sprintf("%s at %s: store access with unresolved %s", t.P.Name(f), t.P.Pos(call.Pos()), map[bool]string{true: "prefix", false: "store key"}[e.Module != "?"]))
 	}
 	return e
+}
+
+// resolveStore resolves a store-typed value to (module, key field, constant
+// prefix). A call of a module helper whose every return is itself a resolvable
+// store expression (func (k Keeper) fooStore(ctx) prefix.Store { return
+// prefix.NewStore(ctx.KVStore(k.storeKey), ...) }) is followed into the helper.
+func (t *Table) resolveStore(f *ssa.Function, v ssa.Value, depth int) (mod, field, prefix string, havePrefix bool) {
+	mod, field = "?", "?"
+	for i := 0; i < 4; i++ {
+		switch x := v.(type) {
+		case *ssa.MakeInterface:
+			v = x.X
+			continue
+		case *ssa.ChangeInterface:
+			v = x.X
+			continue
+		}
+		break
+	}
+	c, ok := v.(*ssa.Call)
+	if !ok {
+		return
+	}
+	name, callees := term.CalleeName(t.P, &c.Call)
+	var kv ssa.Value
+	switch {
+	case name == "cosmos/store/prefix.NewStore" && len(c.Call.Args) == 2:
+		kv = c.Call.Args[0]
+		if s, ok := t.bytesConst(c.Call.Args[1]); ok {
+			prefix, havePrefix = s, true
+		}
+	case name == "sdk.Context.KVStore":
+		kv = c
+		havePrefix = true
+	case len(callees) == 1 && depth < 2 && callees[0].Blocks != nil:
+		h := callees[0]
+		first := true
+		for _, b := range h.Blocks {
+			ret, ok := b.Instrs[len(b.Instrs)-1].(*ssa.Return)
+			if !ok || len(ret.Results) == 0 {
+				continue
+			}
+			m2, f2, p2, hp2 := t.resolveStore(h, ret.Results[0], depth+1)
+			if first {
+				mod, field, prefix, havePrefix = m2, f2, p2, hp2
+				first = false
+			} else if m2 != mod || f2 != field || p2 != prefix || hp2 != havePrefix {
+				return "?", "?", "", false
+			}
+		}
+		return
+	}
+	if kc, ok := kv.(*ssa.Call); ok && len(kc.Call.Args) == 2 {
+		mod, field = t.keyOwner(f, kc.Call.Args[1])
+	}
+	return
 }
 
 // keyOwner: the store key value is a load of a keeper field, or a parameter.
